@@ -1518,18 +1518,14 @@ impl<'a, 'b, W: Write> Serializer for &'a mut YamlSerializer<'b, W> {
             // Block sequence. Decide indentation based on whether this is after a map key or after a list dash.
             let was_inline_value = !self.at_line_start;
 
-            // If we are a value following a block sibling, force a newline now.
-            // However, if a complex-node anchor is pending, we must keep `key: &aN` inline;
-            // `write_anchor_for_complex_node` will handle emitting the anchor and newline.
+            // If we are a value following a block sibling, consume the sibling-block marker; it
+            // should not affect nested nodes. The line break after `key:` is left to the first
+            // element (`SeqSer::serialize_element`), so that an empty sequence stays on the line
+            // of its key (`key: []`) at every indentation setting.
             if self.pending_space_after_colon
                 && self.last_value_was_block
                 && self.pending_anchor_id.is_none()
             {
-                self.pending_space_after_colon = false;
-                if !self.at_line_start {
-                    self.newline()?;
-                }
-                // Consume the sibling-block marker; it should not affect nested nodes.
                 self.last_value_was_block = false;
             }
 
